@@ -77,18 +77,30 @@ class Pool:
                         "".join(gen_table.char_str(c) for c in w[k:]))
         self.files["ghy.dic"] = "UTF-8\n" + "\n".join(pats) + "\n"
         self.files["inc.cti"] = "sign \\x2661 1256\n"
+        # twin tables: the same characters and cells, but `z` is a space in one and a sign in the other
+        self.files["tw1.ctb"] = "space \\s 0\nspace z 3\nsign a 1\nsign b 2\n"
+        self.files["tw2.ctb"] = "space \\s 0\nsign z 3\nsign a 1\nsign b 2\nword ab 12-3\n"
+        self.lists.append(("tw1.ctb", "twin"))
+        self.lists.append(("tw2.ctb", "twin"))
         self.files["bad.ctb"] = "sign a 1\nnonsense x 1\n"
         # a list naming two files, a list that is a prefix of another name, a bad list
         self.lists.append(("g0.ctb,inc.cti", "generated"))
         self.lists.append(("bad.ctb", "bad"))
         self.lists.append(("nothere.ctb", "bad"))
+        # the same text and the same cells are also given to EVERY table: a static that remembers something
+        # about the last character or cell shows only when another table sees the same one
+        self.shared_text = [[0x61, 0x62, 0x20, 0x41, 0x31, 0x2e, 0x61, 0x7a], corpus.rand_input(rng, 16)]
+        self.shared_cells = [[0x8001, 0x8003, 0x8000, 0x8039, 0x8021, 0x8001, 0x803f, 0x8011],
+                             [0x8000 | rng.randint(0, 63) for _ in range(10)]]
         self.calls = []
         self._mk_calls(rng, tier)
 
     def _inputs(self, rng, lst, kind):
         outs = []
         name = lst.split(",")[0]
-        if name in self.gen:
+        if kind == "twin":
+            outs = [[ord(c) for c in w] for w in ("zaaz", "ab z ba", "zzzz a")]
+        elif name in self.gen:
             t = self.gen[name]
             for _ in range(3):
                 outs.append(gen_table.rand_text(rng, t, 14))
@@ -111,6 +123,8 @@ class Pool:
                 cap = rng.choice([1, 3, max(n // 2, 1), n, 2 * n + 3, 1100, 1300, 2700]) if n < 1000 else rng.choice([5, n // 2, n, n + 40])
                 mode = rng.choice([0, 0, 4, 4, 1, 128, 64 | 4, 2, 4 | 128])
                 am = rng.choice([31, 31, 31, 28, 29, 30, 12, 0])
+                if n == 0:
+                    am &= ~16            # a cursor position must lie inside the input
                 cur = str(rng.randint(0, max(n - 1, 0))) if am & 16 else "-"
                 tf = "-"
                 if am & 1:
@@ -131,8 +145,20 @@ class Pool:
                 n = len(b)
                 cap = rng.choice([1, 2, n, 2 * n + 3, 4 * n + 8, 1200, 2700])
                 am = rng.choice([28, 28, 12, 0, 16, 31])
+                if n == 0:
+                    am &= ~16
                 cur = str(rng.randint(0, max(n - 1, 0))) if am & 16 else "-"
                 self.calls.append(("BWD", lst, "BWD %s %d %d %s %d %s - -" % (lst, mode, cap, cur, am, common.wide(b))))
+            if kind == "twin":
+                for w in ("zaaz", "azza", "abzab z"):
+                    for cap in (1, 2, 3, 12):
+                        self.calls.append(("BWD", lst, "BWD %s 0 %d - 12 %s - -" % (lst, cap, common.wide(w))))
+                        self.calls.append(("FWD", lst, "FWD %s 0 %d - 12 %s - -" % (lst, cap, common.wide(w))))
+            for u in self.shared_text:
+                self.calls.append(("FWD", lst, "FWD %s %d %d - 12 %s - -" % (lst, rng.choice([0, 4]), rng.choice([3, len(u), 40]), common.wide(u))))
+            for b in self.shared_cells:
+                for cap in (2, 3, 30):
+                    self.calls.append(("BWD", lst, "BWD %s 4 %d - 12 %s - -" % (lst, cap, common.wide(b))))
             # hyphenation, conversions
             w = [c for c in (rng.choice(ins) or [0x61])[:12] if c != 0x20][:10] or [0x61]
             self.calls.append(("HYP", lst, "HYP %s 0 %s" % (lst, common.wide(w))))
@@ -226,7 +252,7 @@ def run(tier):
         v.obligation("harness builds from /repo working tree (hooks on, ASan+UBSan)", False, str(e)[-2000:])
         return v.finish()
     pool = Pool(rng, tier)
-    nh = 120 if tier == "quick" else 1200
+    nh = 300 if tier == "quick" else 2500
     hists = []
     for i in range(nh):
         n = rng.randint(5, 60)
@@ -255,6 +281,10 @@ def run(tier):
             if x[0] in ("FREE", "LOGLEVEL") or o[k] is None:
                 continue
             need.add(reference_key(h, o, k))
+        if c.fault and c.fault["kind"] != "tick-budget":
+            i = c.fault.get("op_index", -1)       # the call that faulted needs its reference too
+            if 0 <= i < len(h) and h[i][0] not in ("FREE", "LOGLEVEL"):
+                need.add(reference_key(h, o, i))
     need = sorted(need)
     rcs = [common.Case("ref-%d" % i, pool.setup(), list(k), {}) for i, k in enumerate(need)]
     common.run_cases(exe, rcs, batch=1, timeout=180)
@@ -280,7 +310,7 @@ def run(tier):
             i = c.fault.get("op_index", 0)
             opx = c.ops[i] if 0 <= i < len(c.ops) else "?"
             key = reference_key(h, o, i) if 0 <= i < len(h) and h[i][0] not in ("FREE", "LOGLEVEL") else None
-            if key is None or refs.get(key) is not None:
+            if key is None or refs.get(key) is not None:      # (a call that also faults when fresh is reported above)
                 # the same call does not fault in a fresh process: the history made it fault
                 v.violation("C08:fault-after-history:%s:%s:%s" % (c.fault["kind"], c.fault["frame"], opx.split(" ")[0]),
                             "%s in %s while executing %s after %d earlier calls; the same call alone in a fresh process "
